@@ -102,6 +102,10 @@ def parse_twitter_url(url):
     if parsed.fragment.startswith("!"):
         path = re.sub(TWITTER_FRAGMENT_ROUTING_RE, "", parsed.fragment)
 
+        # NOTE: a route has no fragment of its own, lest we recurse once per
+        # "#!" of a string such as "twitter.com/#!#!#!#!..."
+        path = path.split("#", 1)[0]
+
         return parse_twitter_url("twitter.com/" + path)
 
     return None
